@@ -66,8 +66,12 @@ CHECKS["C02"] = (
     "position is kept iff the rule holds; kept positions are strictly increasing; a sample at the finite maximum always survives; -inf/NaN next "
     "to a finite maximum never survives; max_posterior_samples keeps a prefix; every returned row is an evaluated library row, n_linear "
     "consecutive copies. Each run Coq replays what the implementation did (recorded uniform/choice draws, likelihoods, returned rows) through "
-    "rs_check for stub-injected profiles (flat, spike, ties, -inf) and the real kernel, on the in-memory, cache-file and file-name paths.",
-    "Trusted: Coq kernel + vm_compute; Coq-Interval (verified) and BigZ primitive ints; stdlib real axioms + classic + funext (Print Assumptions); "
+    "rs_check for stub-injected profiles (flat, spike, ties, -inf) and the real kernel, on the in-memory, cache-file and file-name paths. "
+    "tools/py2v_reject.py regenerates Gen/RejectSites.v on every run from the four places the rule is applied (rejection_sample_inmem, "
+    "iterative_rejection_inmem, rejection_sample_helper, iterative_rejection_helper: uu, the np.where rule, truncation, index composition, the "
+    "rows handed on and both log-probability columns; fail-closed) and Props/C02g.v proves that what it emits IS the model (C02_sites_good/_rows, "
+    "C06_sites_lnlike/_lnprior, C02_generated_rule).",
+    "Trusted: Coq kernel + vm_compute; translator tools/py2v_reject.py (fail-closed); Coq-Interval (verified) and BigZ primitive ints; stdlib real axioms + classic + funext (Print Assumptions); "
     "numpy exp/subtraction within 1e-9 relative (closer decisions are skipped and counted); the recording Generator sees every draw; pool.map "
     "preserves order. Survival PROBABILITY: C02_survival_probability proves that the rule's acceptance set has measure exp(ll_i - max) = L_i/L_max under a uniform draw on [0,1) (Coquelicot Riemann integral of the indicator); that numpy's Generator.uniform is uniform is trusted.",
     "DESIGN.md 3 (C02)",
